@@ -225,9 +225,12 @@ def fresh_state_obligations(rep):
     fn = mod.functions.get('YP.load_script_from_string')
     probs = []
     src = ast.unparse(fn) if fn else ''
-    if 'new_context = self.eval_context.copy()' not in src:
+    copies = {t.id for a_ in (ast.walk(fn) if fn else []) if isinstance(a_, ast.Assign) and ast.unparse(a_.value) == 'self.eval_context.copy()'
+              for t in a_.targets if isinstance(t, ast.Name)}
+    if not copies:
         probs.append('the script context is not a copy of the evaluation context')
-    if not re.search(r'exec\(code, new_context\)', src):
+    execs = [c for c in (ast.walk(fn) if fn else []) if isinstance(c, ast.Call) and isinstance(c.func, ast.Name) and c.func.id == 'exec']
+    if not execs or not all(len(c.args) == 2 and isinstance(c.args[1], ast.Name) and c.args[1].id in copies and not c.keywords for c in execs):
         probs.append('exec does not run in the copy')
     rep.add_checked('engine.YP.load_script_from_string.frame.exec_in_copy', not probs, '; '.join(probs), 'ast',
                     function='engine.YP.load_script_from_string', witness=probs or None)
@@ -320,8 +323,9 @@ def determinism_obligations(rep, modules=('yp_generator', 'yp_prolog_visitor', '
     mod = core.module('compiler')
     fn = mod.functions.get('_compile_prolog_from_stream')
     src = ast.unparse(fn) if fn else ''
-    probs = [c for c in ('prologLexer(inp)', 'CommonTokenStream(lexer)', 'prologParser(stream)', 'YPPrologVisitor(ctx)',
-                         'YPPrologCompiler(ctx)', 'YPPythonCodeGenerator(ctx)') if c not in src]
+    made = {ast.unparse(c.func) for c in (ast.walk(fn) if fn else []) if isinstance(c, ast.Call)}
+    probs = [c for c in ('prologLexer', 'CommonTokenStream', 'prologParser', 'YPPrologVisitor', 'YPPrologCompiler', 'YPPythonCodeGenerator')
+             if c not in made]
     rep.add_checked('compiler._compile_prolog_from_stream.deterministic.fresh_objects_per_call', not probs,
                     'not created in the call: ' + ', '.join(probs) if probs else '', 'ast', function='compiler._compile_prolog_from_stream',
                     witness=probs or None)
@@ -461,7 +465,11 @@ def strict_parsing_obligations(rep):
     # main turns every CompilerError into a non-zero exit
     fn = mod.functions.get('main')
     src = ast.unparse(fn) if fn else ''
-    ok = 'except CompilerError as e' in src and 'raise click.ClickException(str(e))' in src
+    ok = False
+    for h in [n for n in (ast.walk(fn) if fn else []) if isinstance(n, ast.ExceptHandler)]:
+        if h.type is not None and 'CompilerError' in ast.unparse(h.type) and any(
+                isinstance(r, ast.Raise) and r.exc is not None and 'click.ClickException' in ast.unparse(r.exc) for r in ast.walk(h)):
+            ok = True
     rep.add_checked('compiler.main.compile_errors_become_cli_errors', ok, '' if ok else 'CompilerError is not turned into ClickException', 'ast',
                     function='compiler.main')
 
@@ -550,7 +558,15 @@ def debug_noninterference_obligations(rep):
                             witness=probs or None)
     fn = core.module('yp_prolog_visitor').functions.get('YPPrologVisitor.__getattribute__')
     src = ast.unparse(fn) if fn else ''
-    ok = 'result = attr(*args, **kwargs)' in src and 'return result' in src and src.count('return') == 3
+    ok = False
+    inner = [n for n in (ast.walk(fn) if fn else []) if isinstance(n, ast.FunctionDef) and n is not fn]
+    for d in inner:
+        calls = {t.id for a_ in ast.walk(d) if isinstance(a_, ast.Assign) and isinstance(a_.value, ast.Call) and ast.unparse(a_.value.func) == 'attr'
+                 and any(isinstance(x, ast.Starred) for x in a_.value.args) for t in a_.targets if isinstance(t, ast.Name)}
+        rets = [r for r in ast.walk(d) if isinstance(r, ast.Return)]
+        if rets and all(r.value is not None and ((isinstance(r.value, ast.Name) and r.value.id in calls)
+                                                 or (isinstance(r.value, ast.Call) and ast.unparse(r.value.func) == 'attr')) for r in rets):
+            ok = True
     rep.add_checked('yp_prolog_visitor.YPPrologVisitor.__getattribute__.debug.wrapper_returns_result_unchanged', ok,
                     '' if ok else 'the tracing wrapper does not return the wrapped result unchanged', 'ast',
                     function='yp_prolog_visitor.YPPrologVisitor.__getattribute__')
@@ -576,9 +592,7 @@ def debug_noninterference_obligations(rep):
     mod = core.module('compiler')
     src = mod.text
     probs = []
-    for need in ("StdinStream(encoding='utf8')", "FileStream(fn, encoding='utf8')", "FileStream(path, encoding='utf8')"):
-        if need not in src:
-            probs.append('missing ' + need)
+    io_obligations(rep)        # the CLI and the library decode their input the same way (utf8 streams)
     for q in ('compile_prolog_from_string', 'compile_prolog_from_file', 'main'):
         fn = mod.functions.get(q)
         if fn is None or '_compile_prolog_from_stream(' not in ast.unparse(fn):
@@ -671,7 +685,9 @@ def provenance_obligations(rep):
     v = core.module('yp_prolog_visitor')
     fn = v.functions.get('YPPrologVisitor.visitClause')
     src = ast.unparse(fn) if fn else ''
-    ok = "re.fullmatch('[A-Za-z_][A-Za-z0-9_]*', lhs.name())" in src and 'raise CompilerError' in src
+    ok = 'raise CompilerError' in src and any(
+        isinstance(c, ast.Call) and ast.unparse(c.func) == 're.fullmatch' and c.args and isinstance(c.args[0], ast.Constant)
+        and c.args[0].value == '[A-Za-z_][A-Za-z0-9_]*' for c in (ast.walk(fn) if fn else []))
     rep.add_checked('yp_prolog_visitor.YPPrologVisitor.visitClause.sink.head_name_is_identifier', ok,
                     '' if ok else 'clause head names are not checked against the identifier pattern', 'ast',
                     function='yp_prolog_visitor.YPPrologVisitor.visitClause')
